@@ -9,7 +9,7 @@ from harness import argstore, common, family, refmodel
 FIELDS = ['res', 'view', 'oa', 'oa_defaults', 'oa_unset', 'oa_nopos', 'oa_novk', 'oa_noeq',
           'oa_all', 'dir']
 REPORT_FIELDS = FIELDS[1:]
-SPECIES = ['function', 'class', 'classmethod', 'callable_instance', 'partial']
+SPECIES = ['function', 'class', 'classmethod', 'callable_instance', 'partial', 'unhashable_instance']
 
 
 def corpus():
